@@ -1,10 +1,38 @@
 import GormModel.Drv.Util
+import GormModel.Model.SoftDeleteMode
+import GormModel.Model.AssocScope
 open Lean
 namespace Gorm.Drv
 
-/-- line-protocol handler for C08 (ops are JSON arrays `[opname, args…]`); returns `none` for ops it does not own -/
+/-- `{"valid": …, "zero": …, "text": …}`: the `sql.NullString` ZeroValue of the live-row filter and what clause.Eq renders for it -/
+def softModeJ (m : SoftMode.Mode) : Json :=
+  Json.mkObj [("valid", Json.bool m.valid), ("zero", Json.str m.str), ("text", Json.str m.filterText)]
+
+/-- line-protocol handler for C08 (ops are JSON arrays `[opname, args…]`); returns `none` for ops it does not own.
+
+    `["c08.mode", present : Bool, parseOk : Bool, tag : String]` — a soft-delete field whose `zeroValue:` tag is `present` with
+    text `tag`, which `now.Parse` accepts iff `parseOk`: the mode of the live-row filter on the query / update / delete path
+    (`SoftMode.filterModeNow (tagMode present parseOk tag)`), as
+    `{"query": {"valid","zero","text"}, "update": {…}, "delete": {…}}`.
+    `["c08.chain", propagate, u, steps]` — `AssocScope.finisherUnscoped` (tie suite `chain.tie`). -/
 def handleC08 (op : String) (args : Array Json) : Option Json := do
   match op with
+  | "c08.mode" =>
+    let present ← jBool? (arg args 1)
+    let parseOk ← jBool? (arg args 2)
+    let tag ← jStr? (arg args 3)
+    let tm := SoftMode.tagMode present parseOk tag
+    some (Json.mkObj [
+      ("query", softModeJ (SoftMode.filterModeNow tm .query)),
+      ("update", softModeJ (SoftMode.filterModeNow tm .update)),
+      ("delete", softModeJ (SoftMode.filterModeNow tm .delete))])
+  | "c08.chain" =>
+    -- `["c08.chain", propagate : Bool, u : Bool, [step, …]]` → the Statement.Unscoped the finisher after the chain sees
+    let propagate ← jBool? (arg args 1)
+    let u ← jBool? (arg args 2)
+    let steps ← jArr? (arg args 3)
+    let chain ← steps.toList.mapM jStr?
+    some (Json.bool (AssocScope.finisherUnscoped propagate u chain))
   | _ => none
 
 end Gorm.Drv
